@@ -59,7 +59,7 @@ class C29(PropBase):
 
     def generate(self, seed, tier, idx):
         rng = Rng(seed)
-        proj = gen.gen_project(rng, n_units=rng.randint(2, 7), inline=0.3, max_atoms=5, wp=True, same_basename=0.1, weird_names=0.05)
+        proj = gen.gen_project(rng, corpus=0.35, n_units=rng.randint(2, 7), inline=0.3, max_atoms=5, wp=True, same_basename=0.1, weird_names=0.05)
         opts = {"--enable": rng.choice(["--enable=all", "--enable=style,warning,performance,portability", "--enable=style,information", "--enable=all"]),
                 "--inline-suppr": "--inline-suppr"}
         if rng.chance(0.3):
